@@ -304,6 +304,7 @@ Rekey(id, S1, kind, bmcKnowsNew) ==
                 THEN << NewSessionCall(S2, ExpErr(S2, "ErrIncorrectPassword")), HonestOsr(S1), HonestRakp2(S1), ExpectSession(S1) >>
                 ELSE << NewSessionCall(S2, ExpErr(S2, "error")), HonestOsr(S1), HonestRakp2(S1), HonestRakp4(S1), ExpectSession(S1) >>
   IN ScriptOf(id, "rekey", S1, first \o second, [mut |-> IF bmcKnowsNew THEN "none" ELSE (IF kind = "pw" THEN "wrongPw" ELSE "wrongKg")])
+     @@ [opts |-> [reuseCreds |-> TRUE]]
 \* one *V2SessionOpts value used for two BMCs with different passwords (no KG: the password is the key): only the
 \* Password field is reassigned in between (harness option keepOpts; args of the second call list just that field)
 FleetScript(id, S1) ==
